@@ -281,7 +281,8 @@ class IMAPClientProxy:
                         await self.push("+ idling\r\n")
                     elif ls_imap_msg != "done":
                         await self.push(
-                            f"* NO Expected 'DONE' not: {imap_msg}\r\n"
+                            "* NO Expected 'DONE' not: "
+                            f"{response_text(imap_msg.strip())}\r\n"
                         )
                     else:
                         await self.cmd_processor.do_done()
